@@ -881,12 +881,24 @@ func (s *BlockMapSpec) visitSameBodyChildren(cb visitFunc) {
 	// leaf node ("Nested" does not use the same body)
 }
 
+// allLabelNames returns the label names of a block spec followed by those
+// required by label specs nested inside it, always as a newly allocated slice:
+// appending to the spec's own slice would write into its spare capacity, and a
+// spec may be in use by several goroutines at once.
+func allLabelNames(labelNames []string, nested Spec) []string {
+	nestedNames := findLabelSpecs(nested)
+	ret := make([]string, 0, len(labelNames)+len(nestedNames))
+	ret = append(ret, labelNames...)
+	ret = append(ret, nestedNames...)
+	return ret
+}
+
 // blockSpec implementation
 func (s *BlockMapSpec) blockHeaderSchemata() []hcl.BlockHeaderSchema {
 	return []hcl.BlockHeaderSchema{
 		{
 			Type:       s.TypeName,
-			LabelNames: append(s.LabelNames, findLabelSpecs(s.Nested)...),
+			LabelNames: allLabelNames(s.LabelNames, s.Nested),
 		},
 	}
 }
@@ -1044,7 +1056,7 @@ func (s *BlockObjectSpec) blockHeaderSchemata() []hcl.BlockHeaderSchema {
 	return []hcl.BlockHeaderSchema{
 		{
 			Type:       s.TypeName,
-			LabelNames: append(s.LabelNames, findLabelSpecs(s.Nested)...),
+			LabelNames: allLabelNames(s.LabelNames, s.Nested),
 		},
 	}
 }
